@@ -125,7 +125,7 @@ def gen_helper(r, dtype, hid, names, alphabet=None):
         fns = [f for f in fns if f in alphabet] or fns
     fn = r.choice(fns)
     kw = {}
-    if fn not in NO_DROP_NA and r.random() < 0.7:
+    if fn not in NO_DROP_NA and r.random() < 0.8:
         kw["drop_na"] = r.random() < 0.5
     if fn == "nth":
         kw["index"] = r.choice([0, 1, -1, 2, -2, 3, -4])
